@@ -414,6 +414,11 @@ def check(pid, tier, verif_seed, n_override=None):
             by_sig.setdefault(v['sig'], []).append((r, v))
     new_violations, known_hit = [], {}
     os.makedirs(os.path.join(VERIF, 'replays'), exist_ok=True)
+    # minimisation is bounded per invocation: the first MAX_SHRINK new
+    # signatures are minimised (ddmin + simplifiers), further ones are only
+    # confirmed by replaying their unminimised run twice
+    MAX_SHRINK = int(os.environ.get('VERIF_MAX_SHRINK', '6'))
+    n_shrunk = 0
     for sig in sorted(by_sig):
         kf = findings.match(known, sig)
         r, v = min(by_sig[sig], key=lambda rv: (len(rv[0]['run'].get(
@@ -429,7 +434,10 @@ def check(pid, tier, verif_seed, n_override=None):
               'seed': r['seed'], 'index': r['index'],
               'verif_seed': verif_seed, 'tier': tier,
               'hashseed': r['hashseed'], 'engine_version': ENGINE_VERSION,
-              'run': r['run'], 'shrink_s': 120 if tier == 'quick' else 300}
+              'run': r['run'], 'shrink_s': (
+                  (120 if tier == 'quick' else 300)
+                  if n_shrunk < MAX_SHRINK else 0)}
+        n_shrunk += 1
         with open(path, 'w') as f:
             json.dump(rp, f, indent=1, default=_jd)
         sp = subprocess.run([PY, CLI, pid, '--_shrink_inner', path],
